@@ -42,6 +42,11 @@ def _case(draw, tier):
     hist = None
     if draw(st.integers(0, 3)) == 0:
         hist = dict(dx=draw(gen.rf(-6.0, 6.0)), dy=draw(gen.rf(-6.0, 6.0)), examine=draw(st.sampled_from(["original", "moved copy"])))
+    # the layout may sit far from the coordinate origin (tens of thousands of coherence lengths, e.g. xi = 10 nm and layout
+    # coordinates of a fraction of a millimetre): the geometry is the same wherever the device is
+    if draw(st.integers(0, 3)) == 0:
+        k, ang = draw(st.sampled_from([2.0e4, 3.3e4, 6.0e4])), draw(gen.rf(0.0, 6.28))
+        d["origin"] = [k * d["layer"]["xi"] * float(np.cos(ang)), k * d["layer"]["xi"] * float(np.sin(ang))]
     return dict(device=d, history=hist)
 
 
@@ -73,6 +78,11 @@ def check_case(spec):
     em = mesh.edge_mesh
     xi = dspec["layer"]["xi"]
     P = mesh.sites * xi  # length units
+    if dspec.get("origin"):
+        # examined relative to the layout's own origin, where the outlines were generated (differences of nearby large numbers
+        # are exact to ~1e-11 here; the oracles below then work with coordinates of order one)
+        P = P - np.array(dspec["origin"], dtype=float)
+        res.label("layout far from the coordinate origin")
     T = mesh.elements
     E = em.edges
     n, ne, nt = len(P), len(E), len(T)
